@@ -10,3 +10,4 @@ import TransportVerif.Props.C02
 import TransportVerif.Props.C03
 import TransportVerif.Props.C09
 import TransportVerif.Props.C13
+import TransportVerif.Props.C15
